@@ -11,9 +11,11 @@ package main
 import (
 	"context"
 	"encoding/binary"
+	"encoding/json"
 	"fmt"
 	"os"
 	"os/exec"
+	"reflect"
 	"regexp"
 	"sort"
 	"strings"
@@ -105,7 +107,60 @@ func c41bStress(seed uint64) {
 	}
 	wg.Wait()
 	time.Sleep(30 * time.Millisecond)
-	fmt.Printf("C41B-STRESS-DONE produced=%d served=%d errors=%d\n", produced.Load(), fetched.Load(), errs.Load())
+	restarts := c41bRestarts(seed, store, h, vN(40, 200))
+	fmt.Printf("C41B-STRESS-DONE produced=%d served=%d errors=%d restarts=%d\n", produced.Load(), fetched.Load(), errs.Load(), restarts)
+}
+
+// c41bRestarts: handler restart.  While the old handler still has requests in flight,
+// a NEW handler is built over the same metadata store and S3 bucket and immediately
+// hit by overlapping first requests on partitions it has never opened: getPartitionLog
+// single-flight -> RestoreFromS3 -> the first Reads / first Append+Flush / prefetch of
+// a cold, restored PartitionLog run concurrently, with no sequential warm-up.
+func c41bRestarts(seed uint64, store *metadata.InMemoryStore, old *handler, iters int) int {
+	ctx := context.Background()
+	r := vNewRand(seed ^ 0xbeef)
+	topics := []string{"orders", "c41-a", "c41-b"}
+	var corr atomic.Int32
+	corr.Store(1 << 20)
+	fetch := func(h *handler, tp string, off int64) {
+		freq := &kmsg.FetchRequest{MaxWaitMillis: 1, Topics: []kmsg.FetchRequestTopic{{Topic: tp, Partitions: []kmsg.FetchRequestTopicPartition{{Partition: 0, FetchOffset: off, PartitionMaxBytes: 4096}}}}}
+		resp, _ := h.Handle(ctx, &protocol.RequestHeader{CorrelationID: corr.Add(1), APIVersion: 11}, freq)
+		x := 0
+		for _, b := range resp {
+			x += int(b)
+		}
+		_ = x
+	}
+	produce := func(h *handler, tp string, m uint32) {
+		req := &kmsg.ProduceRequest{Acks: -1, TimeoutMillis: 1000, Topics: []kmsg.ProduceRequestTopic{{Topic: tp,
+			Partitions: []kmsg.ProduceRequestTopicPartition{{Partition: 0, Records: c41bBatch(m, 2)}}}}}
+		_, _ = h.Handle(ctx, &protocol.RequestHeader{CorrelationID: corr.Add(1)}, req)
+	}
+	n := 0
+	for it := 0; it < iters; it++ {
+		nh := newHandler(store, old.s3, protocol.MetadataBroker{NodeID: 1, Host: "localhost", Port: 19092}, testLogger())
+		start := make(chan struct{})
+		var wg sync.WaitGroup
+		run := func(f func()) {
+			wg.Add(1)
+			go func() { defer wg.Done(); <-start; f() }()
+		}
+		tp := topics[it%len(topics)]
+		run(func() { produce(old, topics[(it+1)%len(topics)], uint32(it)) }) // still in flight on the old handler
+		run(func() { fetch(old, tp, 0) })
+		for k := 0; k < 3; k++ {
+			off := int64(r.Intn(20))
+			run(func() { fetch(nh, tp, off) })
+		}
+		if it%2 == 0 {
+			run(func() { produce(nh, tp, uint32(1<<16|it)) })
+		}
+		close(start)
+		wg.Wait()
+		n++
+	}
+	time.Sleep(30 * time.Millisecond)
+	return n
 }
 
 var c41bFrame = regexp.MustCompile(`^\s+(?:github\.com/KafScale/platform/)?([\w./()*\-]+)\(`)
@@ -153,12 +208,12 @@ func TestVerifC41Broker(t *testing.T) {
 		cmd.Env = append(os.Environ(), "VERIF_C41B_CHILD=1", fmt.Sprintf("VERIF_SEED=%d", seed), "GORACE=halt_on_error=0 history_size=3")
 		outB, err := cmd.CombinedOutput()
 		out := string(outB)
-		m := regexp.MustCompile(`C41B-STRESS-DONE produced=(\d+) served=(\d+) errors=(\d+)`).FindStringSubmatch(out)
+		m := regexp.MustCompile(`C41B-STRESS-DONE produced=(\d+) served=(\d+) errors=(\d+) restarts=(\d+)`).FindStringSubmatch(out)
 		reports, keys := c41bParseRaces(out)
 		rep.Count(fmt.Sprintf("broker-stress-%d", seed), m != nil)
 		rep.Hist("broker-stress-runs")
 		if m != nil {
-			rep.Sample(map[string]any{"stress_seed": seed, "produced": m[1], "served": m[2], "request_errors": m[3], "races": len(reports)})
+			rep.Sample(map[string]any{"stress_seed": seed, "produced": m[1], "served": m[2], "request_errors": m[3], "handler_restarts": m[4], "races": len(reports)})
 		}
 		for j, rp := range reports {
 			if len(rp) > 6000 {
@@ -173,6 +228,38 @@ func TestVerifC41Broker(t *testing.T) {
 			}
 			rep.Fail("stress-crash", "broker-stress-crash", fmt.Sprintf("broker stress child did not finish (%v): %s", err, tail), map[string]any{"stress_seed": seed})
 		}
+	}
+	// the handler's fields vs the lockset model's field table
+	{
+		typ := reflect.TypeOf(handler{})
+		var fields []string
+		for i := 0; i < typ.NumField(); i++ {
+			fields = append(fields, typ.Field(i).Name)
+		}
+		if src, err := os.ReadFile(os.Getenv("VERIF_DIR") + "/coq/theories/model/Lockset.v"); err == nil {
+			annotated := map[string]bool{}
+			for _, m := range regexp.MustCompile(`\("handler", "(\w+)", G\w+\)`).FindAllStringSubmatch(string(src), -1) {
+				annotated[m[1]] = true
+			}
+			if len(annotated) > 0 {
+				for _, f := range fields {
+					if !annotated[f] {
+						rep.Fail("annotation", "unannotated-field:handler."+f, "handler."+f+" is not in the lockset model's field table: a field written after construction outside a lock is an unannotated shared location", map[string]any{"struct": "handler", "field": f})
+					}
+					delete(annotated, f)
+				}
+				for f := range annotated {
+					rep.Fail("annotation", "stale-annotation:handler."+f, "the lockset model annotates handler."+f+", which the code no longer has", map[string]any{"struct": "handler", "field": f})
+				}
+			}
+		}
+		q := make([]string, len(fields))
+		for i, f := range fields {
+			q[i] = "\"" + f + "\"%string"
+		}
+		js, _ := json.Marshal(map[string]any{"struct": "handler", "fields": fields})
+		rep.Cases("C41_handler_fields", "From Coq Require Import String.\nFrom KS Require Import lib.Base model.Lockset corr.LocksetCorr.", "fcase", "check_fields",
+			[]string{fmt.Sprintf("mkF \"handler\"%%string %s", cqList(q))}, []string{string(js)})
 	}
 	rep.WriteAs("C41_broker")
 	if len(rep.Failures) > 0 {
